@@ -196,7 +196,7 @@ def run(ctx):
   nul.IMPLICATIONS.clear()
   if c11.check_ruby_invariant(ctx):
     nul.IMPLICATIONS.append((c11.RUBY_GUARD, True, {"self.ruby_rbc", "self.ruby_rtc"}))
-  src = nul.NullSources(call_names={"get_caption_to_process"}, regex_methods=True, iter_funcs={"_none_terminated"}, fields={"ruby_rbc", "ruby_rtc"},
+  src = nul.NullSources(call_names={"get_caption_to_process", "vtt_timestamp_to_secs"}, regex_methods=True, iter_funcs={"_none_terminated"}, fields={"ruby_rbc", "ruby_rtc"},
                         getter_paths={"get_caption_to_process()"})
   reader_fs = common.funcs(ctx, common.READERS)
   nt = nul.check_sources(ctx, reader_fs, src, rule="NUL")
@@ -217,6 +217,9 @@ def run(ctx):
   check_explicit_raises(ctx)
   ng = lint.namedtuple_attrs(ctx, common.mods(ctx, ["ttconv.stl.datafile"]), rule="LINT-g")
   ctx.floor("LINT-g", "namedtuple attribute accesses", ng, 30)
+  # inside isd.py the same dependencies are honoured by the order of _ORDERED_STYLE_PROPS (AssertionError otherwise)
+  from ..rules import isdrules as _isd
+  _isd.check_compute_order(ctx)
   # style processors called outside isd.py assert on already-computed dependencies (AssertionError / AttributeError otherwise)
   nco = c16.check_compute_order(ctx, list(ix.funcs.values()))
   ctx.floor("ORD-compute", "external StyleProcessors.*.compute call sites", nco, 1)
